@@ -25,7 +25,7 @@ macro "tie_entry" : tactic =>
   `(tactic| ((try simp only [R.ext_obs_iff, Rust.opt_ext_obs_iff, Rust.res_ext_obs_iff, Rust.prod_ext_obs_iff,
                 Rust.unit_eq]) <;>
              (repeat (first | src_unfold | ref_unfold | entry_unfold1 | entry_unfold2 | rust_obs_simp)) <;>
-             bv_decide))
+             bv_decide (config := { timeout := 120 })))
 
 theorem PageTableEntry_new : Src.PageTableEntry_new cfg = .ok Entry.new := by tie_entry
 theorem PageTableEntry_is_unused (e : BitVec 64) :
